@@ -14,6 +14,7 @@ import (
 )
 
 func main() {
+	os.Setenv("TZ", "UTC") // instants given as numbers are formatted in the local zone: make it the zone of the time values
 	if len(os.Args) < 2 {
 		fmt.Fprintln(os.Stderr, "usage: harness <replay|...>")
 		os.Exit(2)
